@@ -169,6 +169,7 @@ package stats
 //@ spec usum(a []uint, k int) int = k <= 0 ? 0 : usum(a, k-1) + a[k-1]
 
 //@ func HistogramQuantile
+//@   deterministic
 //@   model real
 //@   requires 0 <= q && q <= 1
 //@   loop 1 (count) invariant total == under + over + usum(counts, _k) && total >= under + over && usum(counts, _k) >= 0
@@ -177,4 +178,9 @@ package stats
 //@   check @ret2 [rank-in-bin] usum(counts, bin) < int(float64(total)*q) - under && int(float64(total)*q) - under <= usum(counts, bin+1)
 //@   check @ret2 [interpolated] result0 == hist.BinToValue(bin + (int(float64(total)*q) - under - usum(counts, bin)) / float64(counts[bin]))
 //@   ensures [nan] (int(q * (under_of(hist) + binned_of(hist) + over_of(hist))) <= under_of(hist) || int(q * (under_of(hist) + binned_of(hist) + over_of(hist))) > under_of(hist) + binned_of(hist)) ==> isnan(result)
+//@   assigns nothing
+
+//@ func HistogramIQR
+//@   model real
+//@   ensures [def] result == HistogramQuantile(hist, 0.75) - HistogramQuantile(hist, 0.25)
 //@   assigns nothing
